@@ -13,6 +13,6 @@ CONSTANTS
   BugCache = FALSE
   BugAccessorMutates = FALSE
   BugJsonAlias = FALSE
-  BugEntryPointWritesTables = TRUE
-  BugCopyDiffers = FALSE
+  BugEntryPointWritesTables = FALSE
+  BugCopyDiffers = TRUE
 CHECK_DEADLOCK FALSE
